@@ -103,6 +103,13 @@ class BaseEnv:
     def sos_fact(self, t):
         pass
 
+    def sumsq(self, t):
+        """sum of squares of the entries of a real tensor (A-scalars: registered as non-negative)"""
+        vals = list(self.arr(t).flat)
+        if vals and all(isinstance(v, apoly.P) or apoly._num(v) is not None for v in vals) and any(isinstance(v, apoly.P) for v in vals):
+            return st.Tensor(st._objarr(apoly.sum_of_squares(vals)), t.dtype)
+        return self.tn.sum(t * t)
+
 
     def __init__(self, tt):
         self.tt = tt
@@ -186,6 +193,11 @@ class SymEnv(BaseEnv):
         """is this exception the checker's own (unsupported / abort) rather than the library's?"""
         from .explorer import Unsupported
         return isinstance(e, Unsupported)
+
+    def grad_of(self, scalar, leaf):
+        """reference derivative of a one-element tensor w.r.t. the entries of a leaf tensor (symbolic differentiation)"""
+        from . import autograd
+        return st.Tensor(autograd.grad_of(scalar, leaf), leaf.dtype)
 
     def pos_scalar(self, name, lo=None, hi=None):
         v = apoly.new_pos(name)
@@ -465,6 +477,10 @@ class ExactEnv(BaseEnv):
         if hi is not None:
             f = f * Fraction(hi) / 4
         return apoly.P.const(f)
+
+    def grad_of(self, scalar, leaf):
+        from . import autograd
+        return st.Tensor(autograd.grad_of(scalar, leaf), leaf.dtype)
 
     def dim(self, name, lo=1, hi=4):
         return seeded_int(self.seed, name, 0, lo, hi)
